@@ -129,12 +129,17 @@ package quotaresource
 
 // Operations of a parent strategy reached through the interface (trusted): they run on the parent's own objects and do not
 // touch this strategy's bookkeeping; in this tree every Inc/Dec of a strategy returns nil (closed world, by induction up the hierarchy).
+// gParentTaken / gParentGiven count, per transaction id, how often a slot of the parent was asked for / given back.
+//@ ghost var gParentTaken gmap[string]int
+//@ ghost var gParentGiven gmap[string]int
 //@ iface QuotaResourceI.Inc
-//@   modifies now
-//@   ensures result == nil
+//@   params s
+//@   modifies gParentTaken, now
+//@   ensures result == nil && gParentTaken[s.GetID()] == old(gParentTaken[s.GetID()]) + 1 && forall(r, string, r != s.GetID() ==> gParentTaken[r] == old(gParentTaken[r]))
 //@ iface QuotaResourceI.Dec
-//@   modifies now
-//@   ensures result == nil
+//@   params s
+//@   modifies gParentGiven, now
+//@   ensures result == nil && gParentGiven[s.GetID()] == old(gParentGiven[s.GetID()]) + 1 && forall(r, string, r != s.GetID() ==> gParentGiven[r] == old(gParentGiven[r]))
 //@ iface QuotaResourceI.Allowed
 //@   modifies now
 
@@ -156,8 +161,11 @@ package quotaresource
 //@   requires csOK(cs) && cs.allowedReq != nil
 //@   requires[entries] forall(r, string, in(r, cs.allowedReq) ==> cs.allowedReq[r] != nil && allocated(cs.allowedReq[r]))
 //@   allocates allowedReqStatus
-//@   modifies mapof(cs.allowedReq), allof(allowedReqStatus.member), smapof(cmOf(csMS(cs)).ctx), now
+//@   modifies mapof(cs.allowedReq), allof(allowedReqStatus.member), smapof(cmOf(csMS(cs)).ctx), gParentTaken, now
 //@   ensures[ok]      result == nil
+//@   ensures[parent-slot-only-together-with-an-own-slot] seq: gParentTaken[APIStream.GetID()] != old(gParentTaken[APIStream.GetID()]) ==> gParentTaken[APIStream.GetID()] == old(gParentTaken[APIStream.GetID()]) + 1 && in(APIStream.GetID(), cs.allowedReq) && cs.allowedReq[APIStream.GetID()].status == reqAllowed
+//@   ensures[no-parent-slot-for-other-transactions] seq: forall(r, string, r != APIStream.GetID() ==> gParentTaken[r] == old(gParentTaken[r]))
+//@   ensures[parent-slot-taken-with-an-own-slot] seq: cs.parent != nil && !old(in(APIStream.GetID(), cs.allowedReq)) && in(APIStream.GetID(), cs.allowedReq) ==> gParentTaken[APIStream.GetID()] == old(gParentTaken[APIStream.GetID()]) + 1
 //@   ensures[known-request-untouched] seq: old(in(APIStream.GetID(), cs.allowedReq)) && old(cs.allowedReq[APIStream.GetID()].status) != reqNotFound ==> csCard(cs) == old(csCard(cs)) && cs.allowedReq[APIStream.GetID()] == old(cs.allowedReq[APIStream.GetID()])
 //@   ensures[slot-taken-memo] seq: !old(in(APIStream.GetID(), cs.allowedReq)) && old(csCard(cs)) < cs.maxRequestCount ==> in(APIStream.GetID(), cs.allowedReq) && cs.allowedReq[APIStream.GetID()].status == reqAllowed
 //@   ensures[slot-taken-member] seq: !old(in(APIStream.GetID(), cs.allowedReq)) && old(csCard(cs)) < cs.maxRequestCount ==> cs.allowedReq[APIStream.GetID()].member == memberKey
@@ -171,8 +179,11 @@ package quotaresource
 //@   prop C02
 //@   requires csOK(cs) && cs.allowedReq != nil
 //@   requires[entries] forall(r, string, in(r, cs.allowedReq) ==> cs.allowedReq[r] != nil && allocated(cs.allowedReq[r]))
-//@   modifies mapof(cs.allowedReq), smapof(cmOf(csMS(cs)).ctx), now
+//@   modifies mapof(cs.allowedReq), smapof(cmOf(csMS(cs)).ctx), gParentGiven, now
 //@   ensures[ok]        result == nil
+//@   ensures[parent-slot-given-back-with-the-own-slot] seq: cs.parent != nil && old(in(APIStream.GetID(), cs.allowedReq)) ==> gParentGiven[APIStream.GetID()] == old(gParentGiven[APIStream.GetID()]) + 1
+//@   ensures[parent-slot-given-back-once] seq: gParentGiven[APIStream.GetID()] != old(gParentGiven[APIStream.GetID()]) ==> old(in(APIStream.GetID(), cs.allowedReq)) && gParentGiven[APIStream.GetID()] == old(gParentGiven[APIStream.GetID()]) + 1
+//@   ensures[no-parent-slot-of-other-transactions-given-back] seq: forall(r, string, r != APIStream.GetID() ==> gParentGiven[r] == old(gParentGiven[r]))
 //@   ensures[forgotten] seq: !in(APIStream.GetID(), cs.allowedReq)
 //@   ensures[released]  seq: old(in(APIStream.GetID(), cs.allowedReq)) && old(cs.allowedReq[APIStream.GetID()].status) == reqAllowed && exists(j, 0, old(csCard(cs)), old(csSet(cs))[j] == old(cs.allowedReq[APIStream.GetID()].member)) ==> csCard(cs) == old(csCard(cs)) - 1
 //@   ensures[once]      seq: !old(in(APIStream.GetID(), cs.allowedReq)) ==> csCard(cs) == old(csCard(cs)) && forall(j, 0, csCard(cs), csSet(cs)[j] == old(csSet(cs))[j])
@@ -194,7 +205,7 @@ package quotaresource
 //@   requires csOK(cs) && cs.allowedReq != nil && cs.parent == nil
 //@   requires[entries] forall(r, string, in(r, cs.allowedReq) ==> cs.allowedReq[r] != nil && allocated(cs.allowedReq[r]))
 //@   allocates allowedReqStatus
-//@   modifies mapof(cs.allowedReq), allof(allowedReqStatus.member), smapof(cmOf(csMS(cs)).ctx), now
+//@   modifies mapof(cs.allowedReq), allof(allowedReqStatus.member), smapof(cmOf(csMS(cs)).ctx), gParentTaken, now
 //@   ensures[ok] result1 == nil
 //@   ensures[admitted-only-with-a-slot] result0 ==> in(APIStream.GetID(), cs.allowedReq) && cs.allowedReq[APIStream.GetID()].status == reqAllowed
 //@   ensures[new-admission-takes-one-slot] result0 && !old(in(APIStream.GetID(), cs.allowedReq)) ==> old(csCard(cs)) < cs.maxRequestCount && csCard(cs) == old(csCard(cs)) + 1
